@@ -749,6 +749,9 @@ func (env *Env) call(e *Expr) *Val {
 		n.cur = stt
 		n.fr = stt.top()
 		return n.eval(e.Args[0])
+	case "isSlot":
+		a := env.eval(e.Args[0])
+		return scalar(App("isSlot", SBool, recast(a.T, SRef)), boolT)
 	case "chanFired":
 		a := env.eval(e.Args[0])
 		t := BVar("t", SInt)
